@@ -51,6 +51,8 @@ void use_all(C& c) {
 cpp2coq.SCHEMA["ut_map"] = dict(
     module="GenUtMap", requires=["Capp.Base", "Capp.Rr", "Capp.UtMap", "Capp.RrLit", "Capp.LruLit", "Capp.UmLit"],
     state="uml", state_args="K V", elem="@tnode", elem_args="K", cap=None, clock=True, inst=INST,
+    # the store of the list's elements and the counter of node identities belong to the (empty) list
+    ctor=True, ctor_also={"ul_list": {"ul_nodes": "[]", "ul_next": "0"}},
     # every loop of the class walks m_ttl_list forward without inserting into it: at most one iteration per node,
     # plus the final evaluation of the condition
     fuel="S (List.length (ul_list %(s)s))",
